@@ -1045,6 +1045,84 @@ theorem c10_time_shared_profile_orig_counterexample :
     tGet false table val s ≠ (calcS table s.ivs s.prof).map (fun S => s.trial.map (timePd (val s.prof) s.ivs S)) := by
   decide
 
+/-! ## evaluation cache of `MultiDimGridPDF`, `PDFProduct` -/
+
+namespace C10
+
+/-- cache invariant: whatever is cached for trial `id` is the normalised density of that trial -/
+def GInv {F : Type} [Mul F] (raw norm : Nat → List F) (s : GState F) : Prop :=
+  ∀ id pd, s.key = some id → s.cache = some pd → pd = List.zipWith (· * ·) (raw id) (norm id)
+
+theorem gEval_spec {F : Type} [Mul F] (cacheOn : Bool) (raw norm : Nat → List F) (s : GState F) (id : Nat)
+    (h : GInv raw norm s) :
+    (gEval cacheOn raw norm s id).2 = List.zipWith (· * ·) (raw id) (norm id) ∧
+    GInv raw norm (gEval cacheOn raw norm s id).1 := by
+  unfold gEval
+  cases cacheOn with
+  | false => simp only [Bool.false_eq_true, if_false]; exact ⟨by first | rfl | trivial, h⟩
+  | true =>
+    simp only [if_true]
+    by_cases hk : s.key = some id
+    · simp only [hk, if_true]
+      cases hc : s.cache with
+      | none =>
+        refine ⟨rfl, ?_⟩
+        intro id' pd hk' hc'
+        simp only [Option.some.injEq] at hk' hc'
+        subst hk'; exact hc'.symm
+      | some pd => exact ⟨h id pd hk hc, h⟩
+    · simp only [hk, if_false]
+      refine ⟨by first | rfl | trivial, ?_⟩
+      intro id' pd hk' hc'
+      simp only [Option.some.injEq] at hk' hc'
+      subst hk'; exact hc'.symm
+
+end C10
+
+/-- **the pd cache of `MultiDimGridPDF` is transparent**: for every sequence of evaluations on one
+object — repeated evaluations of one trial (every minimiser step), changes of the trial, caching
+on or off, any `norm_factor_func` — each returned array is `interpolated grid value × norm
+factor` of the evaluated trial, exactly what the first evaluation of a fresh object returns. -/
+theorem c10_grid_cache_transparent {F : Type} [Mul F] (cacheOn : Bool) (raw norm : Nat → List F)
+    (ids : List Nat) :
+    gRun (gEval cacheOn raw norm) ⟨none, none⟩ ids =
+      ids.map (fun id => List.zipWith (· * ·) (raw id) (norm id)) := by
+  have hgen : ∀ (ids : List Nat) (s : GState F), C10.GInv raw norm s →
+      gRun (gEval cacheOn raw norm) s ids = ids.map (fun id => List.zipWith (· * ·) (raw id) (norm id)) := by
+    intro ids
+    induction ids with
+    | nil => intro s _; rfl
+    | cons id rest ih =>
+      intro s hs
+      obtain ⟨h1, h2⟩ := C10.gEval_spec cacheOn raw norm s id hs
+      simp only [gRun, List.map_cons, h1, ih _ h2]
+  exact hgen ids _ (fun id pd hk _ => by simp at hk)
+
+/-- storing the values before the normalisation: the second evaluation of a trial returns the
+un-normalised grid value (raw 2, norm 3: 6 then 2). -/
+theorem c10_grid_cache_store_raw_counterexample :
+    gRun (gEvalStoreRaw true (fun _ => [(2 : ℤ)]) (fun _ => [3])) ⟨none, none⟩ [0, 0] ≠
+      [0, 0].map (fun _ => List.zipWith (· * ·) [(2 : ℤ)] [3]) := by decide
+
+/-- **`PDFProduct` leaves its factors alone**: for every sequence of product evaluations and reads
+of the factors, each product evaluation returns `pd1·pd2` of the factors' original arrays and
+the factors keep returning their own densities. -/
+theorem c10_product_pure {F : Type} [Mul F] (s : PState F) (ops : List POp) :
+    pRun pStep s ops = ops.map (fun op => match op with
+      | .evalProduct => List.zipWith (· * ·) s.b1 s.b2
+      | .readLeft => s.b1
+      | .readRight => s.b2) := by
+  induction ops with
+  | nil => rfl
+  | cons op rest ih =>
+    cases op <;> simp only [pRun, pStep, List.map_cons, ih]
+
+/-- multiplying in place into the array handed out by the left factor: the factor's density and
+every further product change (`[2]·[3]`: product 6, then the left factor reads 6, product 18). -/
+theorem c10_product_inplace_counterexample :
+    pRun pStepInPlace ⟨[(2 : ℤ)], [3]⟩ [.evalProduct, .readLeft, .evalProduct] = [[6], [6], [18]] ∧
+    pRun pStep ⟨[(2 : ℤ)], [3]⟩ [.evalProduct, .readLeft, .evalProduct] = [[6], [2], [6]] := by decide
+
 /-! ## Part 3 — point-spread densities -/
 
 theorem c10_psf_nonneg (σ ψ : ℝ) (hσ : σ ≠ 0) : 0 ≤ psfPd σ ψ := by
